@@ -3,5 +3,10 @@
   `C01Parts` holds the per-entry-point theorems, `C01Sweep` the end-to-end theorem `sweep_no_fault` about the very function
   the correspondence check ties to the real code (`Sweep.sweep`).
 -/
+import Mb2.Props.FnsIter
+import Mb2.Props.FnsDstMbi
+import Mb2.Props.FnsEfi
+import Mb2.Props.FnsElfOpen
+import Mb2.Props.FnsMisc
 import Mb2.Props.C01Parts
 import Mb2.Props.C01Sweep
